@@ -549,6 +549,48 @@ DIFF_DOCS = [
 ]
 
 
+DIFF_FLAGS = ((), ("--quiet",), ("--same",), ("--onlysame",),
+              ("--pathsep=/",), ("-q", "--pathsep=/"))
+
+
+def diff_case(st, differ, differs, flags, arrays, aoh, lfile, rfile, ltext,
+              rtext):
+    """One option set of yaml-diff against the differ's own report."""
+    sep = PathSeparators.FSLASH if "--pathsep=/" in flags \
+        else PathSeparators.DOT
+    blocks = []
+    for e in differ.get_report():
+        same = e.action is DiffActions.SAME
+        if ("--same" in flags or (same and "--onlysame" in flags)
+                or (not same and "--onlysame" not in flags)):
+            e.pathsep = sep
+            blocks.append(str(e))
+    if "--quiet" in flags or "-q" in flags:
+        blocks = []
+    want_out = "\n\n".join(blocks) + ("\n" if blocks else "")
+    for delivery in ("files", "rhs-stdin"):
+        if flags and delivery != "files" and flags != ("--quiet",):
+            continue
+        argv = ["--arrays=" + arrays, "--aoh=" + aoh] + list(flags) + (
+            [] if "--pathsep=/" in flags else ["--pathsep=."])
+        if delivery == "files":
+            res = cli.run("yaml-diff", argv + [lfile, rfile])
+        else:
+            res = cli.run("yaml-diff", argv + [lfile, "-"], stdin=rtext)
+        case = {"tool": "yaml-diff", "lhs": ltext, "rhs": rtext,
+                "argv": argv, "delivery": delivery}
+        note(st, "yaml-diff", res, (arrays, aoh, delivery, flags), "pair")
+        if crashed(st, "yaml-diff", res, case):
+            continue
+        if (res.code == 0) == differs or res.code not in (0, 1):
+            st.fail("yaml-diff|exit-status|%s" % ",".join(flags), case,
+                    "0 iff data-equal (differ=%s)" % differs, res.code)
+            continue
+        if res.out != want_out:
+            st.fail("yaml-diff|stdout|%s" % ",".join(flags), case,
+                    want_out[:300], res.out[:300])
+
+
 def shard_diff(st, wd, li):
     lspec = DIFF_DOCS[li]
     ltext = corpus.render(lspec)
@@ -569,33 +611,9 @@ def shard_diff(st, wd, li):
                     arrays=arrays, aoh=aoh))
                 differ = Differ(cfg, corpus.LOG, ldoc)
                 differ.compare_to(rdoc)
-                blocks = []
-                for e in differ.get_report():
-                    if e.action is not DiffActions.SAME:
-                        e.pathsep = PathSeparators.DOT
-                        blocks.append(str(e))
-                want_out = "\n\n".join(blocks) + ("\n" if blocks else "")
-                for delivery in ("files", "rhs-stdin"):
-                    argv = ["--arrays=" + arrays, "--aoh=" + aoh,
-                            "--pathsep=."]
-                    if delivery == "files":
-                        res = cli.run("yaml-diff", argv + [lfile, rfile])
-                    else:
-                        res = cli.run("yaml-diff", argv + [lfile, "-"],
-                                      stdin=rtext)
-                    case = {"tool": "yaml-diff", "lhs": ltext, "rhs": rtext,
-                            "argv": argv, "delivery": delivery}
-                    note(st, "yaml-diff", res, (arrays, aoh, delivery), "pair")
-                    if crashed(st, "yaml-diff", res, case):
-                        continue
-                    if (res.code == 0) == differs or res.code not in (0, 1):
-                        st.fail("yaml-diff|exit-status", case,
-                                "0 iff data-equal (differ=%s)" % differs,
-                                res.code)
-                        continue
-                    if res.out != want_out:
-                        st.fail("yaml-diff|stdout", case, want_out[:300],
-                                res.out[:300])
+                for flags in DIFF_FLAGS:
+                    diff_case(st, differ, differs, flags, arrays, aoh,
+                              lfile, rfile, ltext, rtext)
     st.sample({"tool": "yaml-diff", "lhs": ltext, "rhs": corpus.render(
         DIFF_DOCS[3]), "argv": ["--arrays=position"]})
 
